@@ -197,7 +197,15 @@ def cases(tier, seed):
     # single pre-emption first, then the deeper (and much more expensive) schedules: a case that hits its time budget still
     # reports the violations it found up to then, but only if it returns before the property's wall budget ends
     out = list(_cases(tier, seed))
-    out.sort(key=lambda c: (c["preempt"] > 1 or c["threads"] > 2))
+    if tier == "quick":
+        return out
+    # thorough: the quick tier's cases, then the deeper schedules (two pre-emptions, three threads; 100 s each - a case that
+    # hits its time budget still reports what it found), then the remaining single pre-emption variants
+    quick = {c["label"] + repr(c["cfg"]) for c in _cases("quick", seed)}
+    for c in out:
+        if c["preempt"] > 1 or c["threads"] > 2:
+            c["case_budget"] = 100.0
+    out.sort(key=lambda c: 0 if c["label"] + repr(c["cfg"]) in quick else 1 if (c["preempt"] > 1 or c["threads"] > 2) else 2)
     return out
 
 
